@@ -360,6 +360,11 @@ int32_t jls_raw_rd_payload(struct jls_raw_s * self, uint32_t payload_length_max,
 
     uint32_t rd_size = payload_size_on_disk(hdr->payload_length);
 
+    if ((rd_size < hdr->payload_length)  // 32-bit overflow
+            || ((self->offset + (int64_t) sizeof(struct jls_chunk_header_s) + (int64_t) rd_size) > self->backend.fend)) {
+        // The payload is not completely in this file: do not size buffers or CRC spans from this header.
+        return JLS_ERROR_IO;  // like the short read
+    }
     if (rd_size > payload_length_max) {
         return JLS_ERROR_TOO_BIG;
     }
